@@ -21,7 +21,10 @@ CLAIM = dict(
          "order, the wrapped iterable closed once, with or without make_sequence, for every response that is not in direct "
          "passthrough (refuted with a witness for direct passthrough: a known finding), with the exact event trace of serving in "
          "both modes; the body accessors: make_sequence / set_data / freeze / get_data / calculate_content_length agree with the "
-         "bytes served and with the Content-Length sent, a stored Content-Length is kept. The status / method conditions of get_app_iter and get_wsgi_headers, the entity-header "
+         "bytes served and with the Content-Length sent, a stored Content-Length is kept; Response.stream: every write appends to the "
+         "buffered body and leaves no Content-Length, so the length sent afterwards is that of the body as it stands (compared "
+         "with the implementation over sequences of stream.write / writelines / tell, set_data / data =, response.append, "
+         "make_sequence, freeze, calculate_content_length, headers[Content-Length] = ... before serving). The status / method conditions of get_app_iter and get_wsgi_headers, the entity-header "
          "table and the status-phrase table are regenerated from the source on every run; the models are compared with "
          "werkzeug.wrappers.Response by differential execution over the product of body shapes x statuses x methods x preset / "
          "absent Content-Length x direct_passthrough with instrumented closable iterables, and over mutator sequences.",
@@ -34,7 +37,7 @@ CLAIM = dict(
          " Statement pins: tools/pins/c05_response.txt: _iter_encoded and wrappers Response.__init__ / call_on_close / from_app / get_data / "
          "set_data / calculate_content_length / _ensure_sequence / make_sequence / iter_encoded / is_streamed / is_sequence / close / "
          "__enter__ / __exit__ / freeze / get_wsgi_headers / get_app_iter (translated conditions: holes) / get_wsgi_response / "
-         "__call__ / add_etag and the three class defaults, sansio Response.__init__ / status / status_code / _clean_status, "
+         "__call__ / add_etag / stream and the three class defaults, the ResponseStream class, sansio Response.__init__ / status / status_code / _clean_status, "
          "wsgi.ClosingIterator, remove_entity_headers, is_entity_header, test.run_wsgi_app; the Headers mutators are in "
          "tools/pins/c08_containers.txt. Validated differentially only, no pin wanted: urllib.parse.urljoin (CPython); iri_to_uri "
          "and get_current_url (contracts here; property C15 owns iri_to_uri), test.Client.open / Response.from_app callers "
@@ -260,10 +263,10 @@ def gen() -> None:
     holes = {t_: "<TRANSLATED-CONDITION>" for t_ in _ZREC["texts"] if len(t_) >= 8}
     keep = ["__init__", "call_on_close", "from_app", "get_data", "set_data", "calculate_content_length", "_ensure_sequence",
             "make_sequence", "iter_encoded", "is_streamed", "is_sequence", "close", "__enter__", "__exit__", "freeze",
-            "get_wsgi_headers", "get_app_iter", "get_wsgi_response", "__call__", "add_etag"]
+            "get_wsgi_headers", "get_app_iter", "get_wsgi_response", "__call__", "add_etag", "stream"]
     drop = [m for m in c08._method_names(R) if m not in keep and m not in
             ("implicit_sequence_conversion", "autocorrect_location_header", "automatically_set_content_length", "data")]
-    text = "# wrappers/response.py\n" + c08.pin_items(wr, ["_iter_encoded", ("Response", drop)], holes,
+    text = "# wrappers/response.py\n" + c08.pin_items(wr, ["_iter_encoded", ("Response", drop), "ResponseStream"], holes,
                                                       lambda a: isinstance(a, ast.AnnAssign) or ast.unparse(a.targets[0]) in drop)
     SR = px.find_class(sr, "Response")
     sdrop = [m for m in c08._method_names(SR) if m not in ("__init__", "status_code", "status", "_clean_status")]
@@ -416,7 +419,8 @@ def serve_case(chk, rng, shape, status, method, preset_cl, passthrough, ncb, pre
     if shape == "filewrapper":
         passthrough = True
     case = {"kind": "resp", "shape": shape, "status": repr(status), "method": method, "preset_cl": preset_cl,
-            "direct_passthrough": passthrough, "callbacks": ncb, "pre": pre, "location": location, "autocorrect": autocorrect,
+            "direct_passthrough": passthrough, "callbacks": ncb,
+            "pre": [[n_, repr(v_)] for n_, v_ in pre] if isinstance(pre, (list, tuple)) else pre, "location": location, "autocorrect": autocorrect,
             "environ": env_kw, "chunks": [repr(c) for c in chunks]}
     try:
         r = Response(arg, status=status, direct_passthrough=passthrough)
@@ -477,6 +481,69 @@ def serve_case(chk, rng, shape, status, method, preset_cl, passthrough, ncb, pre
             counter = None          # the replaced iterable is no longer the response's body
             if oracle and (r.headers.get("Content-Length") != str(len(chunks[0])) or r.get_data() != chunks[0]):
                 chk.fail("wsgi-body-accessor", f"set_data({v!r}): Content-Length {r.headers.get('Content-Length')!r}, get_data {r.get_data()!r}", case)
+        elif isinstance(pre, (list, tuple)):
+            # a sequence of body edits before serving, with a reference for the stored length: ref_cl is the Content-Length
+            # text the headers should hold (None: none), seq_now whether the body is a buffered sequence by now
+            toks = []
+            chunks = [c.encode() if isinstance(c, str) else c for c in chunks]
+            ref_cl, seq_now = r.headers.get("Content-Length"), (is_seq0 and not is_gen)
+            bytes_only = all(isinstance(c, bytes) for c in chunks0)      # tell() adds up len(item): characters for str items
+            for name, v in pre:
+                if name in ("w", "wl"):
+                    vs = [v] if name == "w" else list(v)
+                    n_ = r.stream.write(v) if name == "w" else r.stream.writelines(vs)
+                    if oracle and name == "w" and n_ != len(v):
+                        chk.fail("wsgi-body-accessor", f"stream.write({v!r}) returned {n_!r}", case)
+                    toks += ["w" + item_tok(x) for x in vs]
+                    chunks += vs
+                    ref_cl, seq_now, user_cl = None, True, False
+                elif name == "tell":
+                    t_ = r.stream.tell()
+                    toks.append("g")
+                    seq_now = True
+                    if oracle and ((bytes_only and t_ != len(b"".join(chunks))) or r.stream.encoding != "utf-8"):
+                        chk.fail("wsgi-body-accessor", f"stream.tell() = {t_!r}, the body has {len(b''.join(chunks))} bytes", case)
+                elif name in ("d", "D"):
+                    if name == "d":
+                        r.set_data(v)
+                    else:
+                        r.data = v
+                    toks.append("d" + item_tok(v))
+                    chunks = [v.encode() if isinstance(v, str) else v]
+                    ref_cl, seq_now, user_cl, counter, bytes_only = str(len(chunks[0])), True, False, None, True
+                elif name == "a":
+                    if not isinstance(r.response, list):
+                        continue
+                    r.response.append(v)
+                    toks.append("a" + item_tok(v))
+                    chunks.append(v)
+                    if ref_cl is not None:
+                        user_cl = True          # a stored length gone stale behind the back of the response: the application's doing
+                elif name == "1":
+                    r.make_sequence()
+                    toks.append("1")
+                    seq_now = True
+                elif name == "g":
+                    got = r.calculate_content_length()
+                    toks.append("g")
+                    seq_now = True
+                    if oracle and got != len(b"".join(chunks)):
+                        chk.fail("wsgi-body-accessor", f"calculate_content_length() = {got!r}, the body has {len(b''.join(chunks))} bytes", case)
+                elif name == "f":
+                    r.freeze()
+                    toks.append("f" + S(r.headers.get("ETag", "")))
+                    ref_cl, seq_now, user_cl = str(len(b"".join(chunks))), True, False
+                elif name == "c":
+                    ref_cl = str(len(b"".join(chunks)))
+                    r.headers["Content-Length"] = ref_cl
+                    toks.append("c" + S(ref_cl))
+                    user_cl = True
+                if oracle and r.headers.get("Content-Length") != ref_cl:
+                    chk.fail("wsgi-stored-length", f"after {name} {v!r}: the headers hold Content-Length {r.headers.get('Content-Length')!r}, "
+                             f"the steps so far leave {ref_cl!r} (body {chunks!r})", case)
+                    oracle = False
+            pre_tok = ";".join(toks) or "0"
+            case["expected_length_header"] = ref_cl if ref_cl is not None else (str(len(b"".join(chunks))) if seq_now else None)
     except Exception as e:  # noqa: BLE001
         if oracle:
             chk.fail("wsgi-response-raises", f"{pre} raised {e!r}", case)
@@ -522,6 +589,11 @@ def serve_case(chk, rng, shape, status, method, preset_cl, passthrough, ncb, pre
                 bad = ("content-length", f"werkzeug computed Content-Length {cls!r}, the body has {len(want)} bytes")
             elif not user_cl and not cls and is_seq0 and not (100 <= code < 200 or code in (204, 304)) and not passthrough:
                 bad = ("content-length", "no Content-Length computed for a sequence body")
+            if bad is None and "expected_length_header" in case and code == 200:
+                exp = case["expected_length_header"]
+                if cls != ([exp] if exp is not None else []):
+                    bad = ("content-length", f"Content-Length {cls!r} reaches the server; the edits before serving leave {exp!r} "
+                           f"and the body has {len(want)} bytes")
             loc = [v for k, v in hdrs if k.lower() == "location"]
             if bad is None and loc and not (loc[-1].isascii() and " " not in loc[-1]):
                 bad = ("location", f"Location {loc[-1]!r} is not an ASCII URI")
@@ -722,7 +794,7 @@ def _cmp_fields(a: str, b: str) -> bool:
         if x == y:
             return True
         if x.startswith("?"):
-            return x[1:] == (",".join(t for t in y.split(",") if t != "w") or "~")
+            return x[1:] == y or x[1:] == (",".join(t for t in y.split(",") if t != "w") or "~")
         return False
     return len(fa) == len(fb) and all(same(x, y) for x, y in zip(fa, fb))
 
@@ -817,6 +889,27 @@ def run(chk: Check) -> None:
         if line is not None:
             lines.append(line)
             impl.append(obs)
+    # sequences of body edits before serving: Response.stream, set_data / data =, response.response.append, make_sequence,
+    # freeze, calculate_content_length, headers[Content-Length] = ..., in any order
+    edits = [("w", b"a"), ("w", b"more"), ("wl", (b"x", b"", b"yz")), ("tell", None), ("d", b"0123456789"), ("D", "h\u00e9llo"), ("d", b""),
+             ("a", b"raw"), ("1", None), ("g", None), ("f", None), ("c", None)]
+    eshapes = ["list_bytes", "tuple_bytes", "gen_bytes", "str", "empty_list", "closable", "noclose", "list_str"]
+    seqs = [(e,) for e in edits] + [(a, b_) for a in edits for b_ in edits]
+    if not quick:
+        seqs += [(a, b_, c) for a in edits for b_ in edits for c in edits]
+    for _ in range(1500 if quick else 30000):
+        seqs.append(tuple(rng.choice(edits) for _ in range(rng.randint(3, 4))))
+    n_seq = 0
+    for sq in seqs:
+        shape = rng.choice(eshapes)
+        line, obs = serve_case(chk, rng, shape, 200, rng.choice(["GET", "GET", "HEAD"]), rng.choice([None, None, "absent"]), False,
+                               rng.choice([0, 0, 2]), list(sq))
+        chk.case(("edits", shape, tuple(n for n, _ in sq), obs), nontrivial=True)
+        n_seq += 1
+        if line is not None:
+            lines.append(line)
+            impl.append(obs)
+    chk.count("body edit sequences", n_seq)
     # Location (IRI, relative, autocorrect): judged by the oracle only
     for loc in LOCATIONS:
         for ac in (False, True):
@@ -891,8 +984,9 @@ def replay(rep) -> int:
         m = re.fullmatch(r"<HTTPStatus\.(\w+): \d+>", st)
         status = HTTPStatus[m.group(1)] if m else ast.literal_eval(st)
         for seed in range(20):       # the body content is random: try a few
+            pre_ = [(n_, ast.literal_eval(v_)) for n_, v_ in inp["pre"]] if isinstance(inp["pre"], list) else inp["pre"]
             line, obs = serve_case(chk, random.Random(seed), inp["shape"], status, inp["method"], inp["preset_cl"],
-                                   inp["direct_passthrough"], inp["callbacks"], inp["pre"], inp.get("location"), inp.get("autocorrect", False),
+                                   inp["direct_passthrough"], inp["callbacks"], pre_, inp.get("location"), inp.get("autocorrect", False),
                                    env_kw=inp.get("environ"))
             if chk.failures:
                 print("observation (chunks, status, headers, wrapped close count, callback runs):", obs)
